@@ -95,7 +95,7 @@ def run(ctx):
     ctx.clause("C08.12 a 64-bit length decoded from the input does not reach `position + length` (directly or inside an availability helper) untested: the sum would wrap")
     from ..rules import wrapsum
     nws = wrapsum.check(ctx, sorted(set(P.rel(f.file) for f in P.lib_functions() if P.rel(f.file).startswith("src/"))))
-    ctx.floor("C08 lengths handed to position + length tests", nws, 15)
+    ctx.count("wrap_sum_sites_judged", nws)      # (vacuity is covered by the wrapsum control twins: a wrap-free rewrite of the helpers has no instance)
     ctx.clause("C08.8 no bounds guard is computed in 32 bits from an unbounded input value and then compared with a 64-bit size")
     from ..rules import widen
     nwid = widen.check(ctx, DECODER_FILES + CODEC_WRAPPERS + ["src/encoding/byte_stream_split.c", "src/thrift/parquet_types.c"])
@@ -125,7 +125,14 @@ def run(ctx):
                 ctx.ok("R4.cursor", key, P.where(e), what, "covered by the facts %s" % _show_facts(facts))
             else:
                 best = facts.get(None, 0)
-                if kt is None or not facts:
+                symbolic = [k_ for k_ in facts if k_ is not None]
+                if kt is None and symbolic and best < kc:
+                    # a bound in terms of a run-time quantity IS established on this path (`ip + extra > iend -> error`); whether
+                    # it covers the constant needed here depends on the value that quantity has on this path (a switch case, a
+                    # conditional width) - which this dataflow does not track: not a proof, and not a witness either
+                    ctx.inconclusive("R4.cursor", key, P.where(e), what,
+                                     "a symbolic bound is established here (facts %s) but the rule cannot relate it to the %d byte(s) needed" % (_show_facts(facts), kc))
+                elif kt is None or not facts:
                     ctx.bad("R4.cursor", key, P.where(e), what,
                             "only %d byte(s) are proven available here (facts %s)" % (best, _show_facts(facts)))
                 else:
